@@ -429,3 +429,19 @@ func iterationSkips(hdr, must *ssa.BasicBlock) (bool, *ssa.BasicBlock) {
 	}
 	return false, nil
 }
+
+// eqFacts lists the comparisons `x == y` known to HOLD at block b, whatever way they were written
+// (x == y on the true edge, x != y on the false edge).
+func eqFacts(b *ssa.BasicBlock) [][2]ssa.Value {
+	var out [][2]ssa.Value
+	for _, f := range core.FactsAt(b) {
+		cmp, ok := f.V.(*ssa.BinOp)
+		if !ok {
+			continue
+		}
+		if (cmp.Op == token.EQL && f.True) || (cmp.Op == token.NEQ && !f.True) {
+			out = append(out, [2]ssa.Value{cmp.X, cmp.Y})
+		}
+	}
+	return out
+}
